@@ -3,8 +3,9 @@
    st.dec  LENFORM PAYLOAD REST CUTS               Frame::decode on 04 ++ varint(len PAYLOAD, on LENFORM bytes; 0 = shortest) ++ PAYLOAD ++ REST,
                                                    handed over as a Buf cut into chunks at the dot-separated positions CUTS (0 = one chunk);
                                                    the model works on the remaining-bytes view, i.e. the concatenation
-   cfg     ROLE GREASE MFS WT EC DG WTMAX G Q      connection setup of a client (c) / server (s) builder configuration; G = grease draw (model only)
-   rx      ROLE LENFORM PAYLOAD CHUNK              a fresh connection receives 00 ++ SETTINGS(PAYLOAD) on the peer's control stream
+   cfg     ROLE CALLS G Q                          connection setup after the builder setter calls CALLS (NAME=V,... in call order, - = none);
+                                                   G = grease draw (model only), Q = write quantum of the transport (impl only)
+   rx      ROLE CALLS LENFORM PAYLOAD TAIL CHUNK   a connection built with CALLS receives 00 ++ SETTINGS(PAYLOAD) ++ TAIL on the peer's control stream
    dflt                                            values in force before any SETTINGS
    each line prints `<model> | <spec>` *)
 let get_ids = List.map n_of_string ["0"; "1"; "6"; "7"; "8"; "51"; "727725890"; "727725891"]
@@ -30,6 +31,26 @@ let drain (w : writebuf) = hex_of_bytes w.wb_hdr
 let b s = s = "1"
 let lenenc form n = if form = 0 then rfc_vi n else rfc_vi_enc (n_of_int form) n
 let n64 = n_of_int 64
+let show_close code =
+  match handle_connection_error code None with
+  | (c, Some cl) -> string_of_n c ^ " close=" ^ string_of_n cl ^ "x1"
+  | (c, None) -> string_of_n c ^ " close=-"
+(* NAME=V,... in call order; names: mfs grease wt ec dg wtmax *)
+let parse_calls s =
+  if s = "-" then [] else
+  List.map (fun p -> match String.split_on_char '=' p with
+    | [a; v] ->
+        let v = n_of_string v in
+        (match a with
+         | "mfs" -> (S_mfs, O_mfs, v) | "grease" -> (S_grease, O_grease, v) | "wt" -> (S_wt, O_wt, v)
+         | "ec" -> (S_ec, O_ec, v) | "dg" -> (S_dg, O_dg, v) | "wtmax" -> (S_wtmax, O_wtmax, v)
+         | _ -> failwith "bad setter")
+    | _ -> failwith "bad call") (String.split_on_char ',' s)
+(* the payload of a complete frame given the bytes after its type: varint length then exactly that many bytes *)
+let rfc_settings_frame_payload r =
+  match rfc_varint r with
+  | Some (n, rest) -> if List.length rest = int_of_n n then Some rest else None
+  | None -> None
 let handle ws = match ws with
   | ["st.ins"; ps] ->
       let l = parse_pairs ps in
@@ -68,30 +89,44 @@ let handle ws = match ws with
         | RxSettingsError -> "err " ^ string_of_n rfc_H3_SETTINGS_ERROR
         | RxApply (known, a) -> "ok " ^ spec_gets known ^ " " ^ show_rfc_applied a ^ " rest=" ^ string_of_int (List.length r)) in
       m ^ " | " ^ s
-  | ["cfg"; role; grease; mfs; wt; ec; dg; wtmax; g; _q] ->
-      let mfs = n_of_string mfs and wtmax = n_of_string wtmax and g = n_of_string g in
-      let c = if role = "c" then client_builder (b grease) mfs (b ec) (b dg)
-              else server_builder (b grease) mfs (b wt) (b ec) (b dg) wtmax in
+  | ["cfg"; role; calls; g; _q] ->
+      let g = n_of_string g in
+      let cs = parse_calls calls in
+      let c = builder_config (if role = "c" then RClient else RServer) (List.map (fun (s, _, v) -> (s, v)) cs) in
       let m = (match setup_control g c with
         | Ok w -> "ok " ^ drain w
-        | Err code -> "err " ^ string_of_n code
+        | Err code -> "err " ^ show_close code
         | Panic _ -> "panic") in
+      let ov o = opt_value (List.map (fun (_, o, v) -> (o, v)) cs) o in
+      let one = n_of_int 1 in
+      let mfs = ov O_mfs and wtmax = ov O_wtmax in
       let s =
-        if not (lt c.c_mfs two62) || not (lt c.c_wtmax two62) then "err " ^ string_of_n rfc_H3_INTERNAL_ERROR
-        else "ok " ^ grease ^ " " ^ String.concat ","
-               (List.map (fun (id, v) -> string_of_n id ^ ":" ^ string_of_n v) (rfc_config_pairs c.c_mfs c.c_wt c.c_ec c.c_dg c.c_wtmax)) in
+        if not (lt mfs two62) || not (lt wtmax two62) then "err " ^ string_of_n rfc_H3_INTERNAL_ERROR ^ " *"
+        else "ok " ^ (if ov O_grease = one then "1" else "0") ^ " " ^ String.concat ","
+               (List.map (fun (id, v) -> string_of_n id ^ ":" ^ string_of_n v)
+                  (rfc_config_pairs mfs (ov O_wt = one) (ov O_ec = one) (ov O_dg = one) wtmax)) in
       m ^ " | " ^ s
-  | ["rx"; _role; form; payload; _chunk] ->
-      let p = bytes_of_hex payload in
-      let bytes = n_of_int 4 :: (lenenc (int_of_string form) (len p) @ p) in
-      let m = (match on_control_frame (frame_decode bytes) init_peer with
+  | ["rx"; _role; _calls; form; payload; tail; _chunk] ->
+      let p = bytes_of_hex payload and t = bytes_of_hex tail in
+      let bytes = n_of_int 4 :: (lenenc (int_of_string form) (len p) @ p @ t) in
+      let m = (match recv_control (nat_of_int 10) bytes init_peer with
         | Ok st -> "ok " ^ show_applied (settings_view st)
-        | Err c -> "err " ^ string_of_n c
+        | Err c -> "err " ^ show_close c
         | Panic _ -> "panic") in
       let s = (match rfc_receive p with
-        | RxTruncated -> "err *"
-        | RxSettingsError -> "err " ^ string_of_n rfc_H3_SETTINGS_ERROR
-        | RxApply (_, a) -> "ok " ^ show_rfc_applied a) in
+        | RxTruncated -> "err * *"
+        | RxSettingsError -> "err " ^ string_of_n rfc_H3_SETTINGS_ERROR ^ " *"
+        | RxApply (_, a) ->
+            if t = [] then "ok " ^ show_rfc_applied a
+            else (match t with
+              | ty :: r when ty = n_of_int 4 ->
+                  (* a second SETTINGS frame: H3_FRAME_UNEXPECTED when it is itself well-formed, some connection error otherwise *)
+                  (match rfc_settings_frame_payload r with
+                   | Some p2 -> (match rfc_receive p2 with
+                       | RxApply _ -> "err " ^ string_of_n rfc_H3_FRAME_UNEXPECTED ^ " *"
+                       | _ -> "err * *")
+                   | None -> "**")
+              | _ -> "**")) in
       m ^ " | " ^ s
   | ["dflt"] -> "ok " ^ show_applied (settings_view init_peer) ^ " | ok " ^ show_rfc_applied rfc_defaults
   | _ -> "driver-error unknown-case"
